@@ -210,8 +210,13 @@ func (sh *shadow) genVA(r *hx.Rng, cfg genCfg, run *hx.Run) *event {
 			variant = "junk-validator-key"
 		case 12:
 			// another owner registers an existing validator (its own nonce is fine)
-			for v, sv := range sh.vals {
-				if sv.owner != e.Owner {
+			vs := make([]int, 0, len(sh.vals))
+			for v := range sh.vals {
+				vs = append(vs, v)
+			}
+			sort.Ints(vs)
+			for _, v := range vs {
+				if sh.vals[v].owner != e.Owner {
 					e.Val = v
 					variant = "existing-validator-other-owner"
 					break
